@@ -180,3 +180,15 @@ func (p perm) at(i int) int {
 	}
 	return int((p.a*uint64(i%p.n) + p.b) % uint64(p.n))
 }
+
+// SeedStream makes a stream's generator independent of the run seed (used to share one program
+// among the runs that enumerate its crash points). No effect in replay mode.
+func (t *Tape) SeedStream(name string, seed uint64) {
+	if t.Replay {
+		return
+	}
+	s := t.S(name)
+	if len(s.out) == 0 {
+		s.state = splitmix(seed ^ hashString(name))
+	}
+}
